@@ -79,10 +79,9 @@ def mk_sched(mode, steps):
     dm = DOMAINS[mode]
     s = {"topics": dm["topics"], "groups": dm["groups"], "parts": dm["parts"], "steps": list(steps)}
     if mode == "store":
-        # every sequence ends with the two list operations and the full read-back (all three are Store.tla steps)
-        tail = [x["a"] for x in s["steps"][-3:]]
-        if tail != ["ListOffsets", "ListGroups", "Final"]:
-            s["steps"] += [{"a": "ListOffsets"}, {"a": "ListGroups"}, {"a": "Final"}]
+        # every sequence ends with Refresh, Metadata, the two list operations and the full read-back (all are Store.tla steps)
+        # (the snapshot reload first, so the closing reads also check what the etcd store persisted)
+        s["steps"] += [{"a": "Refresh"}, {"a": "Metadata"}, {"a": "ListOffsets"}, {"a": "ListGroups"}, {"a": "Final"}]
     if mode == "tools":
         s["init"], s["tools"] = TOOL_INIT, TOOLS
     return s
@@ -224,7 +223,7 @@ REQUIRED = {  # every operation of the mode must have been executed on the real 
     "tools": ["UpdateOffsets", "UpdateConfig", "Commit", "PutGroup", "Tool"],
 }
 RULE = {
-    "store": "schedules = TLC counterexamples of the named deviations + TLC -simulate behaviours (seeded), each closed with ListOffsets, ListGroups, Final; non-trivial = writes to >=2 of {topics, produce offsets, consumer offsets, groups} and uses a name containing ':' or '/'",
+    "store": "schedules = TLC counterexamples of the named deviations + TLC -simulate behaviours (seeded), each closed with Refresh, Metadata, ListOffsets, ListGroups, Final; non-trivial = writes to >=2 of {topics, produce offsets, consumer offsets, groups} and uses a name containing ':' or '/'",
     "coord": "schedules = TLC counterexamples + -simulate behaviours; non-trivial = >=2 successful commits on different (group, topic, partition) and >=1 fetch",
     "tools": "schedules = TLC counterexample + the TLC-enumerated cover of all (tool, shape) pairs + -simulate behaviours; non-trivial = >=1 write before a tool call and >=1 tool call",
 }
